@@ -19,6 +19,22 @@ FAMILIES = {
                                                    "thorough": dict(num=2500, depth=12, consts={"GenSet": '"full"'}, seeds=4)}),
         ],
         mode="app", controls="nopause,clean,noacts,nopt", swap=False),
+    "PAUSE": dict(
+        mc=("MC_Pause", "MC_Pause.cfg", {"quick": {"PauseSet": '"small"'}, "thorough": {"PauseSet": '"full"'}}),
+        gens=[
+            ("Gen_Pause", "Gen_Pause.cfg", "bfs", {"quick": dict(depth=2, consts={"GenSet": '"small"', "PauseSet": '"small"'}),
+                                                   "thorough": dict(depth=3, consts={"GenSet": '"small"', "PauseSet": '"small"'})}),
+            ("Gen_Pause", "Gen_Pause.cfg", "sim", {"quick": dict(num=300, depth=12, consts={"GenSet": '"full"', "PauseSet": '"full"'}, seeds=1),
+                                                   "thorough": dict(num=2500, depth=25, consts={"GenSet": '"full"', "PauseSet": '"full"'}, seeds=4)}),
+        ],
+        mode="app", controls="nopause,nopt", swap=False),
+    "FEES": dict(
+        mc=("MC_Fees", "MC_Fees.cfg", {"quick": {"FeeSet": '"small"'}, "thorough": {"FeeSet": '"full"'}}),
+        shards={"quick": [{"Amounts": "{%d}" % a} for a in (1, 3, 10000, 10001, 199999)],
+                "thorough": [{"Amounts": "{%d}" % a} for a in (1, 2, 3, 9999, 10000, 10001, 19999, 20000, 199999)]},
+        gens=[("Gen_Fees", "Gen_Fees.cfg", "bfs", {"quick": dict(depth=1, consts={"FeeSet": '"small"'}),
+                                                 "thorough": dict(depth=1, consts={"FeeSet": '"full"'})})],
+        mode="app", controls="noacts", swap=False),
 }
 
 # Properties: families that decide them, conformance groups reported with them, evidence texts.
@@ -31,6 +47,16 @@ PROPS = {
                 rule="non-trivial = an orbiter packet received while the orbiter account holds coins, with the paired control run on the emptied account executed; distinct = distinct (pre-state, input)"),
     "C12": dict(families=["FUNDS"], groups=["stats"], level="model_checking",
                 rule="non-trivial = a successful orbiter transfer (statistics must change by exactly that transfer); all other steps are checked for 'unchanged'; distinct = distinct (pre-state, input)"),
+    "C04": dict(families=["FEES"], groups=["ack", "bal"], level="model_checking", exhaustive=True,
+                rule="every grid point (amount x fee-entry list) is one packet through the real application; non-trivial = the payload carries a fee action that parses; distinct = distinct abstract input"),
+    "C08": dict(families=["PAUSE"], groups=["ack", "pause"], level="model_checking",
+                rule="non-trivial = a transfer with a parseable payload received while some protocol/destination is paused, or a pause/unpause message; distinct = distinct (pre-state, input)"),
+    "C09": dict(families=["PAUSE"], groups=["ack", "pause"], level="model_checking",
+                rule="non-trivial = a transfer with a parseable payload received while some action is paused, or a pause/unpause-action message; distinct = distinct (pre-state, input)"),
+    "C10": dict(families=["PAUSE"], groups=["ack", "pause", "params", "stats", "bal"], level="model_checking",
+                rule="non-trivial = any authority message (every RPC x signer class x body class); distinct = distinct (pre-state, input)"),
+    "C18": dict(families=["PAUSE"], groups=["ack", "params"], level="model_checking",
+                rule="non-trivial = a transfer with a non-empty passthrough payload, or an UpdateParams message; distinct = distinct (pre-state, input)"),
 }
 
 ASSUMPTIONS = [
@@ -50,25 +76,39 @@ def ev_key(ev):
 
 
 def run_family(fam, tier, seed, wd, specdir, report):
+    from concurrent.futures import ThreadPoolExecutor
     F = FAMILIES[fam]
+    shards = F.get("shards", {}).get(tier, [{}])
+    nw = max(1, NCPU // max(1, min(len(shards), 8)))
     # 1. model checking of the family (the design satisfies the properties within the constants)
     mod, cfg, consts = F["mc"]
-    mc = model_check(specdir, mod, cfg, consts[tier], timeout=7200)
-    log("model checking %s %s: %d states, %d transitions, %.0fs" % (mod, consts[tier], mc["states"], mc["transitions"], mc["wall_s"]))
-    report["mc"].append(mc)
+
+    def mc_one(sh):
+        return model_check(specdir, mod, cfg, dict(consts[tier], **sh), timeout=7200, workers=nw, tag=stable_hash(sh)[:6])
+    with ThreadPoolExecutor(max_workers=min(len(shards), 8)) as ex:
+        mcs = list(ex.map(mc_one, shards))
+    for mc in mcs:
+        report["mc"].append(mc)
+    log("model checking %s %s x %d shard(s): %d states, %d transitions, %.0fs" % (
+        mod, consts[tier], len(shards), sum(m["states"] for m in mcs), sum(m["transitions"] for m in mcs), max(m["wall_s"] for m in mcs)))
     # 2. generation
     behs = []
     for gi, (gmod, gcfg, gmode, tiers) in enumerate(F["gens"]):
         t = tiers[tier]
         if gmode == "bfs":
-            hs, dt = generate(specdir, gmod, gcfg, t["consts"], "bfs", 0, t["depth"], 0, timeout=3600)
-            for j, h in enumerate(hs):
-                behs.append({"b": "%s-bfs%d-%d" % (fam, gi, j), "steps": h})
-            log("generated %d exhaustive histories of length %d (%s) in %.0fs" % (len(hs), t["depth"], gmod, dt))
+            def gen_one(sh):
+                return generate(specdir, gmod, gcfg, dict(t["consts"], **sh), "bfs", 0, t["depth"], 0, timeout=3600, workers=nw, tag=stable_hash(sh)[:6])
+            with ThreadPoolExecutor(max_workers=min(len(shards), 8)) as ex:
+                res = list(ex.map(gen_one, shards))
+            n0 = len(behs)
+            for si, (hs, dt) in enumerate(res):
+                for j, h in enumerate(hs):
+                    behs.append({"b": "%s-bfs%d-%d-%d" % (fam, gi, si, j), "steps": h})
+            log("generated %d exhaustive histories of length %d (%s) in %.0fs" % (len(behs) - n0, t["depth"], gmod, max(r[1] for r in res)))
         else:
             for s in range(t.get("seeds", 1)):
                 sd = seed * 1000 + s + 1
-                hs, dt = generate(specdir, gmod, gcfg, t["consts"], "sim", t["num"], t["depth"], sd, timeout=3600)
+                hs, dt = generate(specdir, gmod, gcfg, dict(t["consts"], **shards[s % len(shards)]), "sim", t["num"], t["depth"], sd, timeout=3600)
                 for j, h in enumerate(hs):
                     behs.append({"b": "%s-sim%d-s%d-%d" % (fam, gi, sd, j), "steps": h})
                 log("generated %d random histories of length %d (%s, seed %d) in %.0fs" % (len(hs), t["depth"], gmod, sd, dt))
@@ -223,7 +263,7 @@ def check(prop, tier):
             evaluations=report["evaluations"], distinct_nontrivial=nontriv, rule=P["rule"],
             model_checking=report["mc"], families=report["families"],
             spec_divergences=report.get("divergences", {}), known_findings=report.get("known_findings", {}),
-            exhaustive=False),
+            exhaustive=bool(P.get("exhaustive", False))),
         assumptions=ASSUMPTIONS, wall_s=round(time.time() - t0, 1), violations=len(all_viol))
     os.makedirs(os.path.dirname(evidence_path), exist_ok=True)
     json.dump(ev, open(evidence_path, "w"), indent=1)
